@@ -290,7 +290,9 @@ def h_sign(ctx, n, alter, twin=None):
             def verify(self, smessage, signature=None, *a, **k):
                 if signature is None:
                     signature, smessage = smessage[:64], smessage[64:]
-                if len(signature) != 64 or not (C.SymBytes.lift(signature) == F(self.key, smessage)):
+                if len(signature) != 64:
+                    raise ValueError('The signature must be exactly 64 bytes long')
+                if not (C.SymBytes.lift(signature) == F(self.key, smessage)):
                     raise BadSig('Signature was forged or corrupt')
                 return smessage
 
@@ -341,6 +343,15 @@ def h_sign(ctx, n, alter, twin=None):
             ctx.require(SG.verify_sign(pk, m ^ d if ctx.symbolic else bytes(a ^ b for a, b in zip(m, d)), sig) is False, 'fails for any other message')
         elif alter == 'msglen':
             ctx.require(SG.verify_sign(pk, m + b'\x00', sig) is False, 'fails for a longer message')
+        elif alter == 'shift' and n >= 2:
+            # the boundary between signature and message moved: the first k bytes of the message are handed over as the end of
+            # the signature.  Any error counts as a refusal
+            for k in (1, n - 1):
+                try:
+                    r = SG.verify_sign(pk, m[k:], sig + m[:k])
+                except Exception:
+                    r = False
+                ctx.require(r is False, 'fails when the boundary between signature and message is moved')
         elif alter == 'sig':
             d = ctx.bytes_('delta', 64)
             ctx.assume(Not(d == bytes(64)))
@@ -391,8 +402,9 @@ def instances(tier, seed):
 
 
     for n in (0, 1, 32, 45):
-        for alter in ('msg', 'msglen', 'sig', 'key'):
-            yield 'h_sign', dict(n=n, alter=alter)
+        for alter in ('msg', 'msglen', 'sig', 'key', 'shift'):
+            if alter != 'shift' or n >= 2:
+                yield 'h_sign', dict(n=n, alter=alter)
     positions = (0, 1, 11, 23) if tier == 'quick' else range(24)
     for pos in positions:
         for base in (0, 2044, 1020) if tier == 'quick' else (0, 4, 1020, 1024, 2040, 2044):
